@@ -197,9 +197,9 @@ Proof.
   unfold bind at 1.
   pose proof (root_cleanup_spec (w :: D) f w cw2 h2 HI2 Hw2 h2 eq_refl) as Hrc.
   destruct (root_cleanup fixed f w h2) as [u3 h3| |]; [|contradiction|exact I].
-  destruct Hrc as [HI3 [Hw3 [Hroot3 Hold3]]].
+  destruct Hrc as [HI3 [[Hw3 Hnw3] [Hroot3 Hold3]]].
   assert (Fw3 : forall a, findw h3 a = findw h2 a) by (intro; unfold findw; rewrite Hw3; reflexivity).
-  assert (WK3 : wkeeps h2 h3) by (apply same_wins_wkeeps; exact Hw3).
+  assert (WK3 : wkeeps h2 h3) by (apply same_wins_wkeeps; [exact Hw3|exact Hnw3]).
   assert (SH3 : shrinks h2 h3) by (apply wkeeps_shrinks; eauto).
   assert (Hdet3 : detached h3 (w :: D)).
   { intros a [Ea|Ea].
